@@ -35,4 +35,6 @@ Definition in_contact (p : pdb) (d2 : Q) (ida idb : text) : bool :=
 
 (* ----- radii ----- *)
 Definition radii (z : Z) : option (option (Z * Z) * (Z * Z)) := nth_error ELEMENT_RADII (Z.to_nat (z - 1)).
+(* the square a squared distance is compared with for a cut-off: nothing is closer than a cut-off that is not positive *)
+Definition cutoff_d2 (cutoff : Q) : Q := if Qle_bool cutoff 0 then 0 else cutoff * cutoff.
 Definition adist2_to (a : atom) (c : pt) : Q := dist2 (pos a) c.
